@@ -69,6 +69,12 @@ func SchemaSetFromFiles(descFiles *protoregistry.Files, include func(protoreflec
 		}
 	}
 
+	// Every ref is linked now, so the objects of the set can be checked through
+	// all of their flatten levels.
+	if err := checkClientPropertyNames(pkgSet.registered); err != nil {
+		return nil, err
+	}
+
 	return pkgSet, nil
 }
 
@@ -95,6 +101,7 @@ func (ps *SchemaSet) messageSchema(src protoreflect.MessageDescriptor) (RootSche
 	}
 
 	schemaPackage.Schemas[nameInPackage] = placeholder
+	ps.registered = append(ps.registered, placeholder)
 
 	msgOptions := proto.GetExtension(src.Options(), ext_j5pb.E_Message).(*ext_j5pb.MessageOptions)
 
@@ -588,6 +595,24 @@ func checkPropertyNames(properties []*ObjectProperty) error {
 			return fmt.Errorf("property name %q is used twice", prop.JSONName)
 		}
 		seen[prop.JSONName] = struct{}{}
+	}
+	return nil
+}
+
+// checkClientPropertyNames rejects an object whose client properties, its own
+// together with those of the objects it flattens at any depth, use one JSON name
+// twice: the encoder would write that key twice and the decoder rejects it. An
+// object can flatten an object which is still being built, so this runs over
+// the refs of a finished build, in the order they were created.
+func checkClientPropertyNames(refs []*RefSchema) error {
+	for _, ref := range refs {
+		object, ok := ref.To.(*ObjectSchema)
+		if !ok {
+			continue
+		}
+		if err := checkPropertyNames(object.ClientProperties()); err != nil {
+			return fmt.Errorf("client properties of %s: %w", object.FullName(), err)
+		}
 	}
 	return nil
 }
